@@ -259,28 +259,37 @@ class Spec(EvalableModel):
 
             orig: Component = self.arch.find(leaf.name)
             c = leaf
+            # Costs calculated by an earlier call already include the scale factors and
+            # n_parallel_instances. Applying them to the stored values again would scale
+            # them twice, so only calculate what has not been calculated yet.
+            calculated = getattr(orig, "_costs_calculated", frozenset())
             prev_log = list(c.component_modeling_log)
             c.component_modeling_log.clear()
-            if area:
+            if area and "area" not in calculated:
                 c = c.calculate_area(models)
                 orig.area = c.area
                 orig.total_area = c.area * global_fanout
-            if energy:
+                calculated = calculated | {"area"}
+            if energy and "energy" not in calculated:
                 c = c.calculate_action_energy(models)
                 for a in c.actions:
                     orig_action = orig.actions[a.name]
                     orig_action.energy = a.energy
-            if throughput:
+                calculated = calculated | {"energy"}
+            if throughput and "throughput" not in calculated:
                 c = c.calculate_action_throughput(models)
                 for a in c.actions:
                     orig_action = orig.actions[a.name]
                     orig_action.throughput = a.throughput
-            if leak:
+                calculated = calculated | {"throughput"}
+            if leak and "leak" not in calculated:
                 c = c.calculate_leak_power(models)
                 orig.leak_power = c.leak_power
                 orig.total_leak_power = c.leak_power * global_fanout
+                calculated = calculated | {"leak"}
             orig.component_modeling_log = prev_log + c.component_modeling_log
             orig.component_model = c.component_model
+            orig._costs_calculated = calculated
 
         return self
 
